@@ -88,11 +88,35 @@ def _exc(e):
     return "%s: %s" % (type(e).__name__, str(e)[:200])
 
 
+def _other_filesystem(home):
+    """a directory on another filesystem than the profile's, or None when this machine offers none"""
+    for cand in ("/dev/shm", "/run/shm"):
+        try:
+            if os.path.isdir(cand) and os.access(cand, os.W_OK) and os.stat(cand).st_dev != os.stat(home).st_dev:
+                return cand
+        except OSError:
+            pass
+    return None
+
+
 def run_case(case):
+    import tempfile
     out = Outcome()
     home = envkit.fresh_home("c19")
     cwd = os.getcwd()
     os.chdir(home)
+    # where temporary files go is the user's environment, not the library's choice: on many systems the temp directory is a memory
+    # filesystem while the configuration lives on disk (tmp_elsewhere), on others both are one filesystem
+    tmp_before, env_before, tmp_dir = tempfile.tempdir, os.environ.get("TMPDIR"), None
+    if case.get("tmp_elsewhere"):
+        other = _other_filesystem(home)
+        if other:
+            tmp_dir = tempfile.mkdtemp(prefix="verif_c19_", dir=other)
+            tempfile.tempdir = tmp_dir
+            os.environ["TMPDIR"] = tmp_dir
+            out.label("temp_directory_on_another_filesystem")
+        else:
+            out.label("no_other_filesystem_on_this_machine")
     try:
         if case["sub"] == "rt":
             _roundtrip(case, out, home)
@@ -105,6 +129,14 @@ def run_case(case):
     finally:
         os.chdir(cwd)
         envkit.drop_home(home)
+        if tmp_dir:
+            import shutil
+            tempfile.tempdir = tmp_before
+            if env_before is None:
+                os.environ.pop("TMPDIR", None)
+            else:
+                os.environ["TMPDIR"] = env_before
+            shutil.rmtree(tmp_dir, ignore_errors=True)
     return out
 
 
@@ -457,8 +489,8 @@ def rt_strategy():
 
 
 def crash_strategy():
-    return st.builds(lambda a, b, p, c: {"sub": "crash", "old": a, "new": b, "profile": p, "after": c},
-                     fields_strategy("json"), fields_strategy("json"), _profile, st.one_of(st.none(), fields_strategy("json")))
+    return st.builds(lambda a, b, p, c, t: dict({"sub": "crash", "old": a, "new": b, "profile": p, "after": c}, **({"tmp_elsewhere": True} if t else {})),
+                     fields_strategy("json"), fields_strategy("json"), _profile, st.one_of(st.none(), fields_strategy("json")), st.booleans())
 
 
 def profile_api_strategy():
@@ -480,6 +512,8 @@ def _enum_basic():
         yield dict({"sub": "rt", "fmt": "json", "how": "profile", "fields": base, "profile": "acct1", "fields2": full},
                    **dict(([("other_writer", True)] if bits & 1 else []) + ([("again", True)] if bits & 2 else []) + ([("fail_first", True)] if bits & 4 else [])))
     yield {"sub": "crash", "old": base, "new": full, "profile": "acct1"}
+    yield {"sub": "crash", "old": base, "new": full, "profile": "acct1", "tmp_elsewhere": True}
+    yield {"sub": "crash", "old": full, "new": base, "profile": "acct1", "tmp_elsewhere": True}
     yield {"sub": "crash", "old": full, "new": dict(full, pushname="a much longer push name " * 4), "after": base, "profile": "acct1"}
     yield {"sub": "profile_api", "old": base, "edits": {"server_static_public": "55" * 32}, "profile": "4915112345678"}
     yield {"sub": "profile_api", "old": full, "edits": {"server_static_public": "66" * 32, "pushname": "new name", "edge_routing_info": "0a0b"},
@@ -502,3 +536,4 @@ def plan(tier):
     }
 
 RULE += (' Also: the second save made by another manager object, the first configuration saved again afterwards, a first attempt failing with an I/O error at fsync (the profile must load as the previous or the new configuration in between) and retried.')
+RULE += (" Crash cases also run with the temporary directory (TMPDIR) on another filesystem than the profile (a memory filesystem), where this machine has one.")
